@@ -161,6 +161,10 @@ impl DocumentBlock {
         }
     }
 
+    fn is_text_block(&self) -> bool {
+        matches!(self, DocumentBlock::Plain(_) | DocumentBlock::Para(_))
+    }
+
     pub fn append_inline(&mut self, inline: DocumentInline, line_range: LineRange) {
         match self {
             DocumentBlock::Plain(plain) => plain.inlines.push(inline),
@@ -180,7 +184,10 @@ impl DocumentBlock {
             DocumentBlock::OrderedList(list) => {
                 let item = list.items.last_mut().unwrap();
 
-                if item.is_empty() {
+                // text of a tight item that follows a finished block of another kind (a code
+                // block, heading, quote or rule) starts a new paragraph instead of being
+                // dropped or glued into that block
+                if !item.last().map_or(false, |block| block.is_text_block()) {
                     item.push(DocumentBlock::Para(Para {
                         line_range: line_range.clone(),
                         inlines: Vec::new(),
@@ -192,7 +199,10 @@ impl DocumentBlock {
             DocumentBlock::BulletList(list) => {
                 let item = list.items.last_mut().unwrap();
 
-                if item.is_empty() {
+                // text of a tight item that follows a finished block of another kind (a code
+                // block, heading, quote or rule) starts a new paragraph instead of being
+                // dropped or glued into that block
+                if !item.last().map_or(false, |block| block.is_text_block()) {
                     item.push(DocumentBlock::Para(Para {
                         line_range: line_range.clone(),
                         inlines: Vec::new(),
